@@ -189,6 +189,9 @@ def call_builtin(ex, name, args, kwargs, node):
     if name in ('collections.defaultdict', 'defaultdict', 'collections.OrderedDict', 'OrderedDict') or (name in ('collections.deque', 'deque') and not args):
         return V(TTuple([]), [])
     if name in ('typing.cast', 'cast'): return args[1]
+    if name in ('re.search', 're.match', 're.fullmatch') and len(args) >= 2:
+        rx = call_builtin(ex, 're.compile', [args[0]] + list(args[2:]), kwargs, node)
+        return call_method_builtin(ex, E.BoundBuiltin(rx, name), [args[1]], {}, node)
     if name == 're.compile':
         from . import strlib
         pat = ex.val(args[0]); flags = 0
@@ -402,6 +405,10 @@ def call_method_builtin(ex, bm, args, kwargs, node):
             if isinstance(k, str): k = mv.names.get(k)
             if k is None or k not in mv.groups or mv.groups[k] is None: raise Unsupported('regex group %r' % (k,))
             return mv.groups[k]
+        if name in ('match.start', 'match.end') and not args and getattr(mv, 'head', None) is not None:
+            if not ex.spec and ex.branch(z3.Not(recv.t[0]), exceptional=True): ex.raise_exc('AttributeError')
+            st_ = z3.Length(mv.head)
+            return vint(st_ if name == 'match.start' else st_ + z3.Length(mv.whole))
         raise Unsupported(name)
     args = [a if isinstance(a, (E.IterV, E.PyObj)) else ex.val(a) for a in args]
     if name == '_replace' and isinstance(ty, TRec):
